@@ -50,13 +50,20 @@ func (g *Gen) fnPick(pool []string, k int) []string {
 // FnScanStages are the plan stages that print the key pattern of the index they use.
 var FnScanStages = []string{"IXSCAN", "IXSCAN", "IXSCAN", "COUNT_SCAN", "DISTINCT_SCAN", "EXPRESS_IXSCAN"}
 
+// fnDirs: what an index key's "direction" may be: 1 / -1, or the kind of a special index
+var fnDirs = []string{`"hashed"`, `"2dsphere"`, `"text"`, `"2d"`, `1`, `-1`}
+
 func fnSummary(clauses [][]string, dirs []int, stage func() string) string {
 	var cs []string
 	d := 0
 	for _, keys := range clauses {
 		var ks []string
 		for _, k := range keys {
-			ks = append(ks, fmt.Sprintf("%s: %d", k, dirs[d%len(dirs)]))
+			if dirs == nil {
+				ks = append(ks, fmt.Sprintf("%s: %s", k, fnDirs[(d+len(k))%len(fnDirs)]))
+			} else {
+				ks = append(ks, fmt.Sprintf("%s: %d", k, dirs[d%len(dirs)]))
+			}
 			d++
 		}
 		cs = append(cs, stage()+" { "+strings.Join(ks, ", ")+" }")
@@ -181,7 +188,11 @@ func (g *Gen) FnLine(pool []string, verb, db, coll string, carrier string) *FnCa
 		default:
 			// one scan stage per summary (a summary with several clauses repeats it, as an OR of index scans does)
 			st := FnScanStages[g.R.Intn(len(FnScanStages))]
-			fc.Summary = fnSummary(clauses, []int{1, -1, 1}, func() string { return st })
+			dirs := []int{1, -1, 1}
+			if g.chance(0.25) {
+				dirs = nil // hashed / geo / text index keys
+			}
+			fc.Summary = fnSummary(clauses, dirs, func() string { return st })
 			fc.SumKeys = clauses
 		}
 		attr.Set("planSummary", StrN(fc.Summary))
